@@ -79,7 +79,7 @@ def _same_scalar(a, b):
     import z3
     from symnp.core import SC
     a, b = SC(a), SC(b)
-    return z3.simplify(a.re.z - b.re.z, som=True).eq(z3.RealVal(0)) and z3.simplify(a.im.z - b.im.z, som=True).eq(z3.RealVal(0))
+    return z3.simplify(a.re.z - b.re.z, som=True, sort_sums=True).eq(z3.RealVal(0)) and z3.simplify(a.im.z - b.im.z, som=True, sort_sums=True).eq(z3.RealVal(0))
 
 
 def _same_mat(A, B):
@@ -87,7 +87,7 @@ def _same_mat(A, B):
     from symnp.core import SC
     for a, b in zip(A.reshape(-1), B.reshape(-1)):
         a, b = SC(a), SC(b)
-        if not (z3.simplify(a.re.z - b.re.z, som=True).eq(z3.RealVal(0)) and z3.simplify(a.im.z - b.im.z, som=True).eq(z3.RealVal(0))):
+        if not (z3.simplify(a.re.z - b.re.z, som=True, sort_sums=True).eq(z3.RealVal(0)) and z3.simplify(a.im.z - b.im.z, som=True, sort_sums=True).eq(z3.RealVal(0))):
             return False
     return True
 
